@@ -111,7 +111,7 @@ def _shape_worker(batch):
 
 def fill_text(kind, choice, a, b):
     if kind == 'm':
-        return {'{}': '{}', '{x}': '{x}', 'tok': ' x'}[choice]
+        return {'{}': '{}', '{x}': '{x}', '{Xy1}': '{Xy1}', 'tok': ' x'}[choice]
     if kind == 'o':
         return {'absent': '', '[]': '[]', '[x]': '[x]'}[choice]
     if kind == 's':
